@@ -1812,6 +1812,16 @@ class Interp:
                 return [(cfg, Const(d))]
             atom = ("isinstance", args[0], args[1])
             return [(cfg, App("isinstance", (args[0], args[1])))]
+        if fname == "ast.iter_child_nodes" and len(args) == 1 and isinstance(args[0], NodeV):
+            kids = []
+            cls = getattr(ast, args[0].cls, None)
+            for fld in getattr(cls, "_fields", ()):
+                v = args[0].fields.get(fld)
+                if isinstance(v, NodeV):
+                    kids.append(v)
+                elif isinstance(v, ListV):
+                    kids.extend(x for x in v.items if isinstance(x, NodeV))
+            return [(cfg, ListV(kids, "list"))]
         if fname == "len" and len(args) == 1:
             if isinstance(args[0], (ListV, DictV)):
                 if not any(isinstance(x, App) and x.op in ("star", "more") for x in args[0].items) \
